@@ -334,6 +334,11 @@ fn run_typed<C: SimColor>(sc: &Scenario, opts: &Opts) -> RunOut {
             }
         }
         trace.u64(len as u64);
+        if out.violation.is_none() {
+            if let Err(e) = C::new_const_agrees(&buf, i.w, i.h, i.be) {
+                out.violation = Some(mk("new_length_check", format!("{} (buffer of {} bytes, required length {})", e, len, expected_len)));
+            }
+        }
     }
 
     // (a) pixel()
